@@ -12,6 +12,8 @@ import Reamber.Lemmas.OsuDenote
 import Reamber.Lemmas.OsuDialect
 import Reamber.Lemmas.OsuWritten
 import Reamber.Lemmas.OsuReadFacts
+import Reamber.Lemmas.OsuPerm
+import Reamber.Lemmas.OsuWide
 import Reamber.Generated.OsuTables
 
 namespace Reamber.Osu
@@ -713,5 +715,101 @@ example : denoteText (writeText intRender demoChart) = .ok (quantize id demoChar
   denote_writeText intRender demoChart (by decide +kernel) (by decide +kernel) (by decide +kernel) (by decide +kernel)
     (by decide +kernel) (by decide +kernel) (by decide +kernel) (by decide +kernel) (by decide +kernel)
     (by decide +kernel)
+
+/-! ## "the same chart with times moved by less than 1 ms", as ONE statement about whole charts -/
+
+/-- **the object lines `OsuMap.write` emits are the chart's hits and holds, each exactly once, in time order**: the
+merge `sorted([*holds, *hits], key=offset)` is a permutation (nothing lost, invented or duplicated) and ascending -/
+theorem written_objects_perm (c : Chart) :
+    ((sortedObjs c).filterMap objHit).Perm c.hits ∧ ((sortedObjs c).filterMap objHold).Perm c.holds ∧
+    TimeOrdered (sortedObjs c) :=
+  ⟨(sortedObjs_perm c).1, (sortedObjs_perm c).2, sortedObjs_timeOrdered c⟩
+
+/-- **`quantize c` is `c` with times moved by less than 1 ms** (`SameChart1ms`, stated without `quantize`): its hits
+(holds) are a permutation of the hits (holds) of `c`, each at a time less than 1 ms away — for a hold both ends — and
+equal in every other field; tempo points: same points, same order, time and bpm exactly; scroll velocities identical;
+sample events in order, less than 1 ms away; metadata trimmed. -/
+theorem quantize_same_chart (uni : Str → Str) (c : Chart) : SameChart1ms uni c (quantize uni c) :=
+  quantize_sameChart uni c
+
+/-- **Writing any chart yields a well-formed .osu text that denotes the same chart with times moved by less than
+1 ms — one theorem about whole charts.**  For every chart `c` (hypotheses of `denote_writeText`: key count 1..256,
+columns inside it, separator-free file names, non-zero bpm / SV, int-read attributes integral; renderer parameters) there
+is a chart `c'` such that
+* the written text is a text of the dialect (`Skeleton.WF`) — well-formed;
+* the format (by the book) reads the written text as `c'`, and so does `OsuMap.read` (the reader as written);
+* `c'` is `c` at millisecond resolution: `SameChart1ms` — hits and holds a permutation of those of `c`, every time
+  (both ends of a hold) less than 1 ms away, all other fields equal; tempo points and scroll velocities exactly;
+* writing `c'` again moves nothing any more at the object level (`q*_idem`: no drift). -/
+theorem write_denotes_same_chart (R : Render) (c : Chart)
+    (hk : 0 < pyTrunc c.md.circleSize) (hk' : pyTrunc c.md.circleSize ≤ 256)
+    (hhits : ∀ h ∈ c.hits, ObjOk2 (pyTrunc c.md.circleSize) (.hit h))
+    (hholds : ∀ h ∈ c.holds, ObjOk2 (pyTrunc c.md.circleSize) (.hold h))
+    (hb : ∀ b ∈ c.bpms, BpmOk2 R b) (hs : ∀ b ∈ c.svs, SvOk2 R b)
+    (hm : MetaOk R c.md) (hnl : ∀ tl ∈ writeMeta c.md, ∀ t ∈ tl, '\n' ∉ R.tok t)
+    (hbq : '"' ∉ c.md.backgroundFileName) (hbc : ',' ∉ c.md.backgroundFileName) :
+    ∃ c', (writtenSkeleton R c).WF ∧ denoteText (writeText R c) = .ok c' ∧ readText (writeText R c) = .ok c' ∧
+      SameChart1ms R.uni c c' ∧
+      c'.hits.map qHit = c'.hits ∧ c'.holds.map qHold = c'.holds ∧ c'.bpms.map qBpm = c'.bpms := by
+  have hsf : ∀ s ∈ c.md.samples, ',' ∉ s.file := by
+    unfold MetaOk at hm
+    exact hm.2.2.2.2.2.2.2.2.2.2.2.2
+  refine ⟨quantize R.uni c, writtenSkeleton_wf R c hhits hholds hb hs hsf hbq hbc,
+    denote_writeText R c hk hk' hhits hholds hb hs hm hnl hbq hbc, read_writeText R c hk hk' hhits hholds hb hs hm hnl,
+    quantize_sameChart R.uni c, ?_, ?_, ?_⟩
+  · simp only [quantize, List.map_map]
+    exact List.map_congr_left (fun h _ => qHit_idem h)
+  · simp only [quantize, List.map_map]
+    exact List.map_congr_left (fun h _ => qHold_idem h)
+  · simp only [quantize, List.map_map]
+    exact List.map_congr_left (fun h _ => qBpm_idem h)
+
+/-- non-vacuity: the 7K demo chart -/
+example :=
+  write_denotes_same_chart intRender demoChart (by decide +kernel) (by decide +kernel) (by decide +kernel)
+    (by decide +kernel) (by decide +kernel) (by decide +kernel) (by decide +kernel) (by decide +kernel)
+    (by decide +kernel) (by decide +kernel)
+
+/-! ## `int()` / `float()` as Python implements them: the wider dialect
+
+`readInt` / `readFloat` (Model/OsuLex.lean) accept what CPython accepts: non-ASCII decimal digits and white space,
+underscores between digits, a leading `+`, `.5`, `5.`, exponents.  All text → chart theorems above (`readObj_eq_denoteObj`,
+`readTiming_eq_denote`, `read_text_iff_denote`, `denote_write_read`) are stated for arbitrary field texts, so they hold on
+this wider dialect as they stand: reader and by-the-book denotation apply the same number reader to the same fields.
+The theorems below say where three notions part ways. -/
+
+/-- on plain ASCII tokens the wide readers are the grammar `[+-]?digits` / `[+-]?digits[.digits][e[+-]digits]` -/
+theorem wide_number_plain (s : Str) (h : Plain s) : readInt s = readIntA s ∧ readFloat s = readFloatA s :=
+  read_plain s h
+
+/-- `str.strip()` removes \x1c–\x1f, `int()` / `float()` do not: a field containing one is rejected -/
+theorem wide_number_rejects_sep (s : Str) (h : s.any isSep = true) :
+    readInt s = .error .value ∧ readFloat s = .error .value ∧ floatNonFinite s = none :=
+  number_rejects_sep s h
+
+/-- on the tokens `[+-]?(inf|infinity|nan)` (any case) Python's `float()` returns a non-finite double where the model
+answers ValueError: these tokens are outside the dialect and outside the model's value domain (observed on the real
+reader by the check, claim `lex`) -/
+theorem wide_float_nonfinite (s : Str) (x : NonFin) (h : floatNonFinite s = some x) : readFloat s = .error .value :=
+  floatNonFinite_rejected s x h
+
+/-- the wider dialect on examples: Arabic-Indic and full-width digits, underscores, `+`, exponent, U+2003 / NBSP padding -/
+example : readInt "\u00a0+١_٢３\u2003".toList = .ok 123 ∧ readFloat " -1_0.5e0_1\t".toList = .ok (-105) ∧
+    readInt "1__0".toList = .error .value ∧ readFloat "1_.5".toList = .error .value ∧
+    readInt "\x1c5".toList = .error .value ∧ floatNonFinite " -iNfInItY ".toList = some .negInf ∧
+    floatNonFinite "nan_".toList = none := by decide +kernel
+
+/-- the value-level theorem on a line of the wider dialect (non-vacuity of `wfObjLine` there) -/
+example : wfObjLine "٣٠٧ ,0, +1_000.5e0,１ ,0,0:0:0:0:".toList = true ∧
+    (readHit "٣٠٧ ,0, +1_000.5e0,１ ,0,0:0:0:0:".toList 4).toOption.map (fun h => (h.offset, h.column)) = some (2001/2, 2) := by
+  decide +kernel
+
+/-- **where the reader and the format part ways in the wider dialect** (dialect fact "uninherited literally 0 or 1"):
+`is_timing_point` compares the seventh field with the *text* `"1"`, the format reads it as a number.  A timing line whose
+flag is written `01` (or `+1`, ` 1`, `１`) is a tempo point by the book and is dropped by the reader. -/
+theorem flag_literal_counterexample :
+    (denoteTiming "0,500,4,0,0,50,01,0".toList).toOption.map (·.isSome) = some true ∧
+    isTimingPoint "0,500,4,0,0,50,01,0".toList = false ∧ isSliderVelocity "0,500,4,0,0,50,01,0".toList = false ∧
+    wfTimingLine "0,500,4,0,0,50,01,0".toList = false := by decide +kernel
 
 end Reamber.Osu
